@@ -241,8 +241,9 @@ example : splitPos false { path := [0x2f], ext := bytes ".php", split := bytes "
 /-! ### environment -/
 
 /-- For every request that `route` sends to rule `j` with script path `f`, the environment the
-model derives satisfies the environment verdict: every request header arrives as HTTP_*, every
-configured entry arrives, DOCUMENT_URI ++ PATH_INFO is the script path cut right after the first
+model derives satisfies the environment verdict: every request header arrives as HTTP_*, no other
+HTTP_* variable arrives (only HTTP_HOST, configured entries and the request's own headers may lie in
+that namespace: `buildEnv_ownVars`), every configured entry arrives, DOCUMENT_URI ++ PATH_INFO is the script path cut right after the first
 occurrence of the split string, and stdin is exactly the body.
 
 PARTIAL: it excludes HEAD and OPTIONS requests that carry a body — `Head`/`Options` pass no body
